@@ -10,8 +10,15 @@ and shows up as a result that differs from the pool-free run otherwise.
 
 This pass SAMPLES real schedules (it is not exhaustive); it is reported separately from the exhaustive
 count and can only add violations (a data race or a differing result), never remove one.
+
+Process structure: the invoked process is a coordinator; it discovers the entry points, cuts them into
+chunks and runs each chunk in a fresh interpreter (C20_CHUNK=lo:hi), several at a time. A chunk whose
+interpreter is killed by the *sanitizer runtime itself* (gcc-12 libtsan sporadically dies with
+"ThreadSanitizer failed to allocate 0xffff... bytes" after a few thousand thread creations; timing
+dependent, no report about the code under test) is re-run, then halved; entry points that still cannot be
+run are counted as not covered (stage partial), never as a pass and never as a violation.
 """
-import glob, json, os, re, sys, time
+import glob, json, os, re, subprocess, sys, time
 
 sys.path.insert(0, os.path.dirname(os.path.abspath(__file__)))
 import c20_explore as X
@@ -19,83 +26,192 @@ import verifpool
 
 R = X.R
 TSAN = "tsan" in os.environ.get("LD_PRELOAD", "")
+CHUNK = os.environ.get("C20_CHUNK")
+
+
+def run_entries(eps, t_dead):
+    """Runs the free-running pass over eps; returns the number of entry points completed."""
+    n = 208
+    reps = 3 if not TSAN else 1
+    done = 0
+    for e in eps:
+        if time.time() > t_dead:
+            return done, False
+        if os.environ.get("C20_TRACE"):
+            sys.stderr.write("ENTRY %s\n" % e.label()); sys.stderr.flush()
+        combos = X.kind_combos(e, True)
+        kinds = combos[0]
+        done += 1
+        try:
+            bundle = X.Bundle(e, kinds, n)
+        except Exception:                   # noqa: BLE001
+            continue
+        fn = e.fn()
+        verifpool.uninstall()
+        try:
+            r0, x0, a0, k0 = X.run_call(fn, bundle)
+            ref = X.canon(r0, a0, k0) if x0 is None else None
+        except X.CannotCanon:
+            continue
+        if x0 is not None:
+            continue
+        verifpool.install()
+        verifpool.set_mode(1)
+        dispatched = False
+        for w, script in X.schedules(n, 2, (3,), all_tid_maps=False, reduced=True):
+            if len(script) < 2 or sorted(p[2] for p in script) != list(range(len(script))):
+                continue                      # concurrent pieces must carry distinct worker ids (a real pool's contract)
+            for _ in range(reps):
+                verifpool.set_workers(w)
+                verifpool.set_script(script)
+                verifpool.reset_stats()
+                r1, x1, a1, k1 = X.run_call(fn, bundle)
+                R.add("evaluations", 1); R.add("transitions", 1); R.add("states", 1)
+                if verifpool.stats()[0]:
+                    dispatched = True
+                else:
+                    break
+                if x1 is not None or X.canon(r1, a1, k1) != ref:
+                    R.fail("threads.result-differs:" + e.label(), "workers=%d concurrent pieces=%s" % (w, script),
+                           "bitwise equal to the run without a pool", x1 or "different bytes")
+            if not dispatched:
+                break
+        verifpool.set_mode(0)
+        verifpool.uninstall()
+        if dispatched:
+            R.cls("threads.dispatched-entry-points", 1)
+    return done, True
+
+
+def tsan_reports(prefix):
+    races = {}
+    runtime_death = False
+    for f in glob.glob(prefix + "*"):
+        txt = open(f, errors="replace").read()
+        if "ThreadSanitizer failed to allocate" in txt or "ThreadSanitizer: unexpected memory mapping" in txt:
+            runtime_death = True
+        for rep in txt.split("WARNING: ThreadSanitizer: ")[1:]:
+            kind = rep.split("\n", 1)[0]
+            fr = re.findall(r"#\d+ (\S+)", rep)
+            top = next((x for x in fr if "PyImath" in x or "Imath" in x), fr[0] if fr else "?")
+            races.setdefault((kind.split(" (")[0], top), 0)
+            races[(kind.split(" (")[0], top)] += 1
+        os.remove(f)
+    return races, runtime_death
+
+
+def child(eps):
+    lo, hi = map(int, CHUNK.split(":"))
+    if R.stage("threads-free-running"):
+        done, complete = run_entries(eps[lo:hi], R.t0 + R.deadline)
+        (R.stage_done if complete else R.stage_partial)("%d entry points" % done)
+    R.note("done", hi - lo if complete else done)
+    return R.finish()
+
+
+def coordinator(eps):
+    t_dead = R.t0 + R.deadline
+    only = os.environ.get("C20_ONLY")
+    idx = [i for i, e in enumerate(eps) if not only or re.search(only, e.label())]
+    size = 12 if TSAN else 40
+    # contiguous index ranges (C20_ONLY selections are rare; they simply give ranges of length 1)
+    chunks, cur = [], []
+    for i in idx:
+        if cur and (i != cur[-1] + 1 or len(cur) >= size):
+            chunks.append((cur[0], cur[-1] + 1)); cur = []
+        cur.append(i)
+    if cur:
+        chunks.append((cur[0], cur[-1] + 1))
+    outdir = os.path.join(os.environ.get("VERIF_PYBUILD", "/tmp"), "threads-chunks" + ("-tsan" if TSAN else ""))
+    os.makedirs(outdir, exist_ok=True)
+    for f in glob.glob(os.path.join(outdir, "*")):
+        os.remove(f)
+    R.declare("threads.dispatched-entry-points")
+    races, covered, uncovered, deaths = {}, 0, [], 0
+    if not R.stage("threads-free-running"):
+        return R.finish()
+    par = 8
+    pending = [(lo, hi, 0) for lo, hi in chunks]
+    running = []
+    timed_out = False
+    while pending or running:
+        while pending and len(running) < par and not timed_out:
+            lo, hi, attempt = pending.pop(0)
+            tag = "%d-%d-%d" % (lo, hi, attempt)
+            env = dict(os.environ, C20_CHUNK="%d:%d" % (lo, hi))
+            logp = os.path.join(outdir, "tsan-" + tag)
+            if TSAN:
+                env["TSAN_OPTIONS"] = re.sub(r"log_path=[^: ]+", "log_path=" + logp, os.environ.get("TSAN_OPTIONS", "log_path=x"))
+            out = os.path.join(outdir, "rep-" + tag + ".json")
+            left = max(30, t_dead - time.time())
+            p = subprocess.Popen([sys.executable, os.path.abspath(__file__), "--tier", R.tier, "--seed", str(R.seed), "--out", out, "--deadline", str(left)],
+                                 env=env, stdout=subprocess.DEVNULL, stderr=open(os.path.join(outdir, "err-" + tag + ".txt"), "w"))
+            running.append((p, lo, hi, attempt, out, logp))
+        if time.time() > t_dead + 60:
+            timed_out = True
+            for p, *_ in running:
+                p.kill()
+        still = []
+        for item in running:
+            p, lo, hi, attempt, out, logp = item
+            if p.poll() is None:
+                still.append(item); continue
+            rc, dead = ({}, False)
+            if TSAN:
+                rc, dead = tsan_reports(logp)
+            for k, c in rc.items():
+                races[k] = races.get(k, 0) + c
+            rep = json.load(open(out)) if os.path.exists(out) else None
+            if rep is not None:    # the child wrote its report (TSan makes the exit status 66 when it printed any report)
+                for k, v in rep.get("counters", {}).items():
+                    R.add(k, v)
+                for k, v in rep.get("classes", {}).items():
+                    R.cls(k, v)
+                for v in rep.get("violations", []):
+                    R.fail(v["site"], v["input"], v.get("expected", ""), v.get("got", ""))
+                d = int(rep.get("notes", {}).get("done", hi - lo))
+                covered += d
+                if d < hi - lo:
+                    uncovered.append("%d:%d (deadline)" % (lo + d, hi))
+            elif dead and not timed_out:
+                deaths += 1
+                if attempt < 1:
+                    pending.append((lo, hi, attempt + 1))
+                elif hi - lo > 1:
+                    mid = (lo + hi) // 2
+                    pending += [(lo, mid, 0), (mid, hi, 0)]
+                else:
+                    uncovered.append("%d:%d (sanitizer runtime died twice)" % (lo, hi))
+            elif timed_out:
+                uncovered.append("%d:%d (deadline)" % (lo, hi))
+            else:
+                # the interpreter died for a reason that is neither a report nor a known sanitizer-runtime failure
+                tail = open(os.path.join(outdir, "err-%d-%d-%d.txt" % (lo, hi, attempt)), errors="replace").read()[-300:]
+                R.fail("crash.threads-pass", "entry points %d:%d (%s ..)" % (lo, hi, eps[lo].label()), "interpreter exits normally",
+                       "exit %s: %s" % (p.returncode, tail))
+        running = still
+        if running:
+            time.sleep(0.2)
+        if timed_out and not running:
+            uncovered += ["%d:%d (deadline)" % (lo, hi) for lo, hi, _ in pending]
+            pending = []
+    bound = ("%d entry points, all-plain arguments, every partition by 1..2 cuts from the reduced alphabet run as concurrent threads%s"
+             % (covered, " under ThreadSanitizer" if TSAN else " (x3 repetitions)"))
+    if uncovered:
+        R.stage_partial(bound + "; NOT covered: entry-point index ranges " + ", ".join(uncovered[:20]))
+    else:
+        R.stage_done(bound)
+    if TSAN:
+        for (kind, top), c in sorted(races.items()):
+            R.fail("tsan." + kind.replace(" ", "-") + ":" + top, "ThreadSanitizer report x%d" % c, "no report", kind)
+        R.note("tsan_reports", sum(races.values()))
+        R.note("tsan_runtime_deaths_retried", deaths)
+    return R.finish()
 
 
 def main():
     eps, skipped = X.discover()
-    only = os.environ.get("C20_ONLY")
-    n = 208
-    reps = 3 if not TSAN else 1
-    t_dead = R.t0 + R.deadline
-    R.declare("threads.dispatched-entry-points")
-    if R.stage("threads-free-running"):
-        done = 0
-        for e in eps:
-            if only and not re.search(only, e.label()):
-                continue
-            if time.time() > t_dead:
-                R.stage_partial("%d entry points" % done)
-                break
-            combos = X.kind_combos(e, True)
-            kinds = combos[0]
-            try:
-                bundle = X.Bundle(e, kinds, n)
-            except Exception:                   # noqa: BLE001
-                continue
-            fn = e.fn()
-            verifpool.uninstall()
-            try:
-                r0, x0, a0, k0 = X.run_call(fn, bundle)
-                ref = X.canon(r0, a0, k0) if x0 is None else None
-            except X.CannotCanon:
-                continue
-            if x0 is not None:
-                continue
-            verifpool.install()
-            verifpool.set_mode(1)
-            dispatched = False
-            for w, script in X.schedules(n, 2, (3,), all_tid_maps=False, reduced=True):
-                if len(script) < 2 or sorted(p[2] for p in script) != list(range(len(script))):
-                    continue                      # concurrent pieces must carry distinct worker ids (a real pool's contract)
-                for _ in range(reps):
-                    verifpool.set_workers(w)
-                    verifpool.set_script(script)
-                    verifpool.reset_stats()
-                    r1, x1, a1, k1 = X.run_call(fn, bundle)
-                    R.add("evaluations", 1); R.add("transitions", 1); R.add("states", 1)
-                    if verifpool.stats()[0]:
-                        dispatched = True
-                    else:
-                        break
-                    if x1 is not None or X.canon(r1, a1, k1) != ref:
-                        R.fail("threads.result-differs:" + e.label(), "workers=%d concurrent pieces=%s" % (w, script),
-                               "bitwise equal to the run without a pool", x1 or "different bytes")
-                if not dispatched:
-                    break
-            verifpool.set_mode(0)
-            verifpool.uninstall()
-            if dispatched:
-                R.cls("threads.dispatched-entry-points", 1)
-            done += 1
-        else:
-            R.stage_done("%d entry points, all-plain arguments, every partition by 1..2 cuts from the reduced alphabet run as concurrent threads%s"
-                         % (done, " under ThreadSanitizer" if TSAN else " (x3 repetitions)"))
-    # ThreadSanitizer reports (log_path set by the driver through TSAN_OPTIONS)
-    m = re.search(r"log_path=([^: ]+)", os.environ.get("TSAN_OPTIONS", ""))
-    if TSAN and m:
-        races = {}
-        for f in glob.glob(m.group(1) + "*"):
-            txt = open(f, errors="replace").read()
-            for rep in txt.split("WARNING: ThreadSanitizer: ")[1:]:
-                kind = rep.split("\n", 1)[0]
-                fr = re.findall(r"#\d+ (\S+)", rep)
-                top = next((x for x in fr if "PyImath" in x or "Imath" in x), fr[0] if fr else "?")
-                races.setdefault((kind.split(" (")[0], top), 0)
-                races[(kind.split(" (")[0], top)] += 1
-        for (kind, top), c in sorted(races.items()):
-            R.fail("tsan." + kind.replace(" ", "-") + ":" + top, "ThreadSanitizer report x%d" % c, "no report", kind)
-        R.note("tsan_reports", sum(races.values()))
-    return R.finish()
+    return child(eps) if CHUNK else coordinator(eps)
 
 
 if __name__ == "__main__":
